@@ -9,6 +9,7 @@ Algebraic part: any field, any finite face / cell index sets, abstract divergenc
 -/
 import DarsiaProofs.Saddle
 import DarsiaProofs.SolveLoop
+import DarsiaProofs.WassersteinAux
 import DarsiaGen.SolveLoopGen
 namespace Darsia.C04
 open Darsia Darsia.SolveLoop
@@ -191,5 +192,66 @@ theorem pressure_pinned {w : F → K} {D : C → F → K} {k : C} {g : F → K} 
 theorem newton_keeps_pressure_pinned {w : F → K} {D : C → F → K} {k : C} {g : F → K} {f : C → K}
     {du : F → K} {p dp : C → K} {dlam : K} (h : Full w D k g f (0 - p k) du dp dlam) :
     p k + dp k = 0 := by rw [h.pin]; ring
+
+/-! ### auxiliary outputs derive from the returned flat solution (`__call__`) -/
+
+open Darsia.WAux
+
+/-- **aux_from_solution**: cell flux, weighted flux, pressure, transport density and distance returned by
+`__call__` are determined by the dofs of the flat solution `_solve` returned: two flat solutions that agree on the
+flux and pressure dofs give the same outputs at every cell of the grid (nothing else — no hidden state, no other
+iterate — enters). -/
+theorem aux_from_solution (N : (Nat → Rat) → Rat) (shape : List Nat) (h : List Rat) (nq : Nat) (wq : Nat → Rat)
+    (ptq : Nat → List Rat) (wgt : List Nat → Nat → Rat) (x x' : Nat → Rat)
+    (hx : ∀ i, i < numFaces shape + numCells shape → x i = x' i) (idx : List Nat) (hidx : inBox shape idx = true) :
+    (callOut N shape h nq wq ptq wgt x).flux idx = (callOut N shape h nq wq ptq wgt x').flux idx ∧
+    (callOut N shape h nq wq ptq wgt x).weightedFlux idx = (callOut N shape h nq wq ptq wgt x').weightedFlux idx ∧
+    (callOut N shape h nq wq ptq wgt x).pressure idx = (callOut N shape h nq wq ptq wgt x').pressure idx ∧
+    (callOut N shape h nq wq ptq wgt x).density idx = (callOut N shape h nq wq ptq wgt x').density idx ∧
+    (callOut N shape h nq wq ptq wgt x).distance = (callOut N shape h nq wq ptq wgt x').distance := by
+  have hf : ∀ f, f < numFaces shape → x f = x' f := fun f hf => hx f (by omega)
+  have hc := encF_lt shape idx hidx
+  refine ⟨?_, cellVec_congr hf wgt _ hidx, hx _ (by unfold numCells; omega), ?_, cost_congr N h hf nq wq ptq wgt⟩
+  · funext a; exact faceToCell_congr hf _ hidx a
+  · exact transportDensity_congr N hf nq wq ptq wgt hc
+
+/-- flux-type outputs (cell flux, weighted flux, transport density, distance) read the flux dofs only: they do not
+change with the pressure or the multiplier … -/
+theorem aux_flux_outputs_from_flux_dofs (N : (Nat → Rat) → Rat) (shape : List Nat) (h : List Rat) (nq : Nat)
+    (wq : Nat → Rat) (ptq : Nat → List Rat) (wgt : List Nat → Nat → Rat) (x x' : Nat → Rat)
+    (hx : ∀ f, f < numFaces shape → x f = x' f) (idx : List Nat) (hidx : inBox shape idx = true) :
+    (callOut N shape h nq wq ptq wgt x).flux idx = (callOut N shape h nq wq ptq wgt x').flux idx ∧
+    (callOut N shape h nq wq ptq wgt x).weightedFlux idx = (callOut N shape h nq wq ptq wgt x').weightedFlux idx ∧
+    (callOut N shape h nq wq ptq wgt x).density idx = (callOut N shape h nq wq ptq wgt x').density idx ∧
+    (callOut N shape h nq wq ptq wgt x).distance = (callOut N shape h nq wq ptq wgt x').distance := by
+  refine ⟨?_, cellVec_congr hx wgt _ hidx, transportDensity_congr N hx nq wq ptq wgt (encF_lt shape idx hidx),
+    cost_congr N h hx nq wq ptq wgt⟩
+  funext a; exact faceToCell_congr hx _ hidx a
+
+/-- … and the pressure output is the `order="F"` reshape of the pressure dofs: cell number `c` lands at the
+multi-index `decF shape c`; in particular the pinned cell `k` shows `x (num_faces + k)` (= 0 by `pressure_pinned`). -/
+theorem aux_pressure_reshape (N : (Nat → Rat) → Rat) (shape : List Nat) (h : List Rat) (nq : Nat) (wq : Nat → Rat)
+    (ptq : Nat → List Rat) (wgt : List Nat → Nat → Rat) (x : Nat → Rat) (c : Nat) (hc : c < numCells shape) :
+    (callOut N shape h nq wq ptq wgt x).pressure (decF shape c) = x (numFaces shape + c) := by
+  show x (numFaces shape + encF shape (decF shape c)) = _
+  rw [encF_decF shape c hc]
+
+/-- the reported distance is the cell-volume-weighted sum of the returned transport density -/
+theorem aux_distance_is_integral_of_density (N : (Nat → Rat) → Rat) (shape : List Nat) (h : List Rat) (nq : Nat)
+    (wq : Nat → Rat) (ptq : Nat → List Rat) (wgt : List Nat → Nat → Rat) (x : Nat → Rat) :
+    (callOut N shape h nq wq ptq wgt x).distance
+      = sumTo (numCells shape) fun c => vol h * (callOut N shape h nq wq ptq wgt x).density (decF shape c) := by
+  show cost N shape h nq wq ptq wgt x = _
+  unfold cost
+  apply sumTo_congr
+  intro c hc
+  show _ = vol h * transportDensity N shape nq wq ptq wgt x (encF shape (decF shape c))
+  rw [encF_decF shape c hc]
+
+/-- the weighted flux is the cell flux scaled by the cell weight, component by component -/
+theorem aux_weighted_flux (N : (Nat → Rat) → Rat) (shape : List Nat) (h : List Rat) (nq : Nat) (wq : Nat → Rat)
+    (ptq : Nat → List Rat) (wgt : List Nat → Nat → Rat) (x : Nat → Rat) (idx : List Nat) (a : Nat) :
+    (callOut N shape h nq wq ptq wgt x).weightedFlux idx a
+      = wgt idx a * (callOut N shape h nq wq ptq wgt x).flux idx a := rfl
 
 end Darsia.C04
